@@ -1835,20 +1835,22 @@ where
                         }
                     }
                     _ => {
-                        // Unusual case of multiple groups sharing a name: the backref should try each in turn.
-                        // Lower to alternations of backreferences. Reverse to keep it right-associative: a | (b | (c | d))...
+                        // Unusual case of multiple groups sharing a name: the backref refers to whichever
+                        // of them participated. Groups sharing a name lie in different alternatives, so at
+                        // most one of them has matched, and a backreference to a group which has not
+                        // matched succeeds on the empty string: lower to the catenation of backreferences.
+                        // (An alternation would be wrong: its first arm succeeds on the empty string
+                        // whenever the first group did not participate.)
                         let icase = self.flags.icase;
-                        let backrefs =
+                        ir::Node::Cat(
                             group_indices
                                 .iter()
-                                .rev()
                                 .map(|group_index| ir::Node::BackRef {
                                     group: *group_index + 1,
                                     icase,
-                                });
-                        backrefs
-                            .reduce(|right, left| ir::Node::Alt(Box::new(left), Box::new(right)))
-                            .unwrap()
+                                })
+                                .collect(),
+                        )
                     }
                 };
                 Ok(node)
